@@ -176,12 +176,25 @@ let dump_line line =
      | None -> Printf.printf "%s err\n" id)
   | _ -> ()
 
+(* ---- mode "fault": <id> faults <n1>,<n2>,...  ->  <id> reads=<N> outcomes=err,... *)
+let rec nat_of_int i = if i <= 0 then O else S (nat_of_int (i - 1))
+let rec int_of_nat = function O -> 0 | S n -> 1 + int_of_nat n
+let fault_line line =
+  match Stdlib.String.split_on_char ' ' line with
+  | id :: "faults" :: rest ->
+    let cs = (match rest with [] -> "" | x :: _ -> x) in
+    let counts = if cs = "" then [] else Stdlib.List.map (fun s -> nat_of_int (int_of_string s)) (Stdlib.String.split_on_char ',' cs) in
+    let (n, outs) = fault_outcomes counts in
+    Printf.printf "%s reads=%d outcomes=%s\n" id (int_of_nat n)
+      (Stdlib.String.concat "," (Stdlib.List.map (fun b -> if b then "err" else "value") outs))
+  | _ -> ()
+
 let () =
   let mode = if Array.length Sys.argv > 1 then Sys.argv.(1) else "regex" in
   try
     while true do
       let line = input_line stdin in
-      if mode = "dump" then dump_line line else if mode = "spec" then spec_line line else if mode = "print" then print_line line else
+      if mode = "fault" then fault_line line else if mode = "dump" then dump_line line else if mode = "spec" then spec_line line else if mode = "print" then print_line line else
       match Stdlib.String.split_on_char ' ' line with
       | [id; text; cols; hidden; pk; partials; fks; xidx] ->
         let r = recover (hb text) (hlist cols) (hlist hidden) (hlist pk) (hlist partials)
